@@ -69,7 +69,7 @@ func execute(t *testing.T, c Case) (kind, detail string) {
 			}
 		}
 		var otherApp, otherTgt *world.Endpoint
-		if c.Other == "refused-attempt" {
+		if c.Other == "refused-attempt" || c.Other == "idle-later" || c.Other == "busy-later" {
 			// handled below: the sibling is a connection ATTEMPT for a channel the server does not offer,
 			// made while the connection under test is open
 		} else if c.Other != "none" {
@@ -100,6 +100,16 @@ func execute(t *testing.T, c Case) (kind, detail string) {
 		if c.Closer == "target" {
 			closer, other = tg, app
 		}
+		if c.Other == "idle-later" || c.Other == "busy-later" {
+			// the sibling is opened AFTER the connection under test and outlives it
+			otherApp = w.OpenApp("y", func(off int) byte { return world.Pattern(0x55, off) })
+			step()
+			otherTgt = w.Chans[1].Target(0)
+			if otherTgt == nil {
+				kind, detail = "no-connection", fmt.Sprintf("the other logical connection was not established (front=%q)", w.Front.Err)
+				return
+			}
+		}
 		if c.Other == "refused-attempt" {
 			ra := w.OpenApp("no-such-channel", nil)
 			step()
@@ -111,7 +121,7 @@ func execute(t *testing.T, c Case) (kind, detail string) {
 			// a long-lived, idle logical connection: time passes before anything is written
 			bubble.Advance(time.Duration(c.Quiet) * time.Second)
 		}
-		if c.Other == "busy" {
+		if c.Other == "busy" || c.Other == "busy-later" {
 			otherApp.StartWrite(world.Payload(0x66, 0, 30000))
 		}
 		data := world.Payload(tagW, 0, c.N)
@@ -258,8 +268,11 @@ func cases(thorough bool) []Case {
 					if pos == "halfclose-stalled" && (n > 40000 || n == 4096) {
 						continue
 					}
-					for _, other := range []string{"none", "idle", "busy", "refused-attempt"} {
+					for _, other := range []string{"none", "idle", "busy", "refused-attempt", "idle-later", "busy-later"} {
 						if other == "busy" && !thorough && x.sec != "plain" {
+							continue
+						}
+						if strings.HasSuffix(other, "-later") && !thorough && (x.sec != "plain" || n > 4096 || (other == "busy-later" && pos != "consumed")) {
 							continue
 						}
 						out = append(out, Case{Carrier: x.carrier, Sec: x.sec, Closer: closer, N: n, Pos: pos, Other: other})
